@@ -15,24 +15,48 @@ Proof.
   apply IH. intros k Hk. apply H. right. exact Hk.
 Qed.
 
-Lemma best_index_unique_max (lens : list nat) : forall i ml mi h m,
+(* the FIRST largest bucket wins (the code replaces the best only on a strictly larger one) *)
+Lemma best_index_first_max (lens : list nat) : forall i ml mi h m,
   nth_error lens h = Some m -> (ml < m)%nat ->
-  (forall j n, nth_error lens j = Some n -> j <> h -> (n < m)%nat) ->
+  (forall j n, nth_error lens j = Some n -> (j < h)%nat -> (n < m)%nat) ->
+  (forall j n, nth_error lens j = Some n -> (h < j)%nat -> (n <= m)%nat) ->
   best_index lens i ml mi = (i + h)%nat.
 Proof.
-  induction lens as [|n tl IH]; intros i ml mi h m Hh Hm Hothers.
+  induction lens as [|n tl IH]; intros i ml mi h m Hh Hm Hbefore Hafter.
   - destruct h; discriminate.
   - cbn [best_index]. destruct h as [|k].
     + cbn [nth_error] in Hh. injection Hh as ->. apply Nat.ltb_lt in Hm. rewrite Hm.
       rewrite best_index_le_all; [lia|]. intros n Hn. apply In_nth_error in Hn as [j Hj].
-      assert (n < m)%nat by (apply (Hothers (S j) n); [exact Hj | discriminate]). lia.
+      apply (Hafter (S j) n); [exact Hj | lia].
     + cbn [nth_error] in Hh.
-      assert (Hn : (n < m)%nat) by (apply (Hothers O n); [reflexivity | discriminate]).
-      assert (Ho : forall j n0, nth_error tl j = Some n0 -> j <> k -> (n0 < m)%nat).
-      { intros j n0 Hj Hne. apply (Hothers (S j) n0); [exact Hj | congruence]. }
+      assert (Hn : (n < m)%nat) by (apply (Hbefore O n); [reflexivity | lia]).
+      assert (Hb : forall j n0, nth_error tl j = Some n0 -> (j < k)%nat -> (n0 < m)%nat).
+      { intros j n0 Hj Hlt. apply (Hbefore (S j) n0); [exact Hj | lia]. }
+      assert (Ha : forall j n0, nth_error tl j = Some n0 -> (k < j)%nat -> (n0 <= m)%nat).
+      { intros j n0 Hj Hlt. apply (Hafter (S j) n0); [exact Hj | lia]. }
       destruct (Nat.ltb ml n).
-      * rewrite (IH (S i) n i k m Hh Hn Ho). lia.
-      * rewrite (IH (S i) ml mi k m Hh Hm Ho). lia.
+      * rewrite (IH (S i) n i k m Hh Hn Hb Ha). lia.
+      * rewrite (IH (S i) ml mi k m Hh Hm Hb Ha). lia.
+Qed.
+
+(* whatever the candidates: the winner is at least as large as every bucket *)
+Lemma best_index_is_max (lens : list nat) : forall i ml mi,
+  let r := best_index lens i ml mi in
+  (r = mi /\ forall n, In n lens -> (n <= ml)%nat) \/
+  (exists k m, r = (i + k)%nat /\ nth_error lens k = Some m /\ (ml < m)%nat /\ forall n, In n lens -> (n <= m)%nat).
+Proof.
+  induction lens as [|n tl IH]; intros i ml mi; cbn [best_index].
+  - left. split; [reflexivity | intros n []].
+  - destruct (Nat.ltb ml n) eqn:E.
+    + apply Nat.ltb_lt in E. right. destruct (IH (S i) n i) as [[Hr Hall]|(k & m & Hr & Hk & Hm & Hall)].
+      * exists 0%nat, n. split; [lia|]. split; [reflexivity|]. split; [exact E|].
+        intros x [<-|Hx]; [lia | apply Hall, Hx].
+      * exists (S k), m. split; [lia|]. split; [exact Hk|]. split; [lia|].
+        intros x [<-|Hx]; [lia | apply Hall, Hx].
+    + apply Nat.ltb_ge in E. destruct (IH (S i) ml mi) as [[Hr Hall]|(k & m & Hr & Hk & Hm & Hall)].
+      * left. split; [exact Hr|]. intros x [<-|Hx]; [lia | apply Hall, Hx].
+      * right. exists (S k), m. split; [lia|]. split; [exact Hk|]. split; [exact Hm|].
+        intros x [<-|Hx]; [lia | apply Hall, Hx].
 Qed.
 
 (* ------------------------------------------------------------------ the vote *)
@@ -52,9 +76,11 @@ Section VoteCorrect.
     (* the true candidates of all samples fall into one bucket, number h *)
     (forall c, In c all -> istrue c -> first_near near c refs O = Some h) ->
     (exists c, In c all /\ istrue c) ->
-    (* counting premise: a bucket that holds a non-true candidate holds strictly fewer than the true bucket *)
+    (* counting premise, ties as the code breaks them (first largest bucket wins): a bucket that holds a non-true
+       candidate is not bucket h, is strictly smaller than bucket h when it comes before it, not larger when after *)
     (forall i, (i < 4)%nat -> (exists c, In c (bucket_of near refs all i) /\ ~ istrue c) ->
-               (length (bucket_of near refs all i) < length (bucket_of near refs all h))%nat) ->
+               ((i < h)%nat /\ (length (bucket_of near refs all i) < length (bucket_of near refs all h))%nat) \/
+               ((h < i)%nat /\ (length (bucket_of near refs all i) <= length (bucket_of near refs all h))%nat)) ->
     vote near pls = bucket_of near refs all h /\ Forall istrue (vote near pls) /\ istrue (mean (vote near pls)).
   Proof.
     intros pls all Hh Hhome [c0 [Hc0 Tc0]] Hcount.
@@ -64,28 +90,56 @@ Section VoteCorrect.
       rewrite E in Hin. destruct Hin. }
     assert (Hpure : Forall istrue (bucket_of near refs all h)).
     { apply Forall_forall. intros c Hc. destruct (istrue_dec c) as [T|N]; [exact T|]. exfalso.
-      assert (H := Hcount h Hh (ex_intro _ c (conj Hc N))). lia. }
-    assert (Hsmall : forall j, (j < 4)%nat -> j <> h ->
-              (length (bucket_of near refs all j) < length (bucket_of near refs all h))%nat).
+      destruct (Hcount h Hh (ex_intro _ c (conj Hc N))) as [[H _]|[H _]]; lia. }
+    assert (Hother : forall j, (j < 4)%nat -> j <> h ->
+              ((j < h)%nat -> (length (bucket_of near refs all j) < length (bucket_of near refs all h))%nat) /\
+              ((h < j)%nat -> (length (bucket_of near refs all j) <= length (bucket_of near refs all h))%nat)).
     { intros j Hj Hne'. destruct (bucket_of near refs all j) as [|c tl] eqn:E.
-      - destruct (bucket_of near refs all h); [congruence | cbn [length]; lia].
-      - rewrite <- E. apply (Hcount j Hj). exists c. split; [rewrite E; left; reflexivity|].
-        intros T. assert (Hin : In c (bucket_of near refs all j)) by (rewrite E; left; reflexivity).
-        unfold bucket_of in Hin. apply filter_In in Hin as [Hin Hf]. rewrite (Hhome c Hin T) in Hf.
-        apply Nat.eqb_eq in Hf. congruence. }
+      - destruct (bucket_of near refs all h); [congruence | cbn [length]; split; lia].
+      - rewrite <- E. assert (Hx : exists c, In c (bucket_of near refs all j) /\ ~ istrue c).
+        { exists c. split; [rewrite E; left; reflexivity|].
+          intros T. assert (Hin : In c (bucket_of near refs all j)) by (rewrite E; left; reflexivity).
+          unfold bucket_of in Hin. apply filter_In in Hin as [Hin Hf]. rewrite (Hhome c Hin T) in Hf.
+          apply Nat.eqb_eq in Hf. congruence. }
+        destruct (Hcount j Hj Hx) as [[H1 H2]|[H1 H2]]; split; lia. }
     assert (Hv : vote near pls = bucket_of near refs all h).
     { unfold vote, pls. fold pls. fold all. cbn [map].
       set (b0 := bucket_of near refs all 0%nat). set (b1 := bucket_of near refs all 1%nat).
       set (b2 := bucket_of near refs all 2%nat). set (b3 := bucket_of near refs all 3%nat).
       assert (Hb : best_index [length b0; length b1; length b2; length b3] 0 0 0 = (0 + h)%nat).
-      { apply (best_index_unique_max _ 0 0 0 h (length (bucket_of near refs all h)))%nat.
+      { apply (best_index_first_max _ 0 0 0 h (length (bucket_of near refs all h)))%nat.
         - destruct h as [|[|[|[|h']]]]; try reflexivity; lia.
         - destruct (bucket_of near refs all h); [congruence | cbn [length]; lia].
-        - intros j n Hj Hne'. destruct j as [|[|[|[|j']]]]; cbn [nth_error] in Hj;
-            try (injection Hj as <-; apply Hsmall; [lia | exact Hne']).
+        - intros j n Hj Hlt. destruct j as [|[|[|[|j']]]]; cbn [nth_error] in Hj;
+            try (injection Hj as <-; apply Hother; lia).
+          destruct j'; discriminate.
+        - intros j n Hj Hlt. destruct j as [|[|[|[|j']]]]; cbn [nth_error] in Hj;
+            try (injection Hj as <-; apply Hother; lia).
           destruct j'; discriminate. }
       rewrite Hb. destruct h as [|[|[|[|h']]]]; try reflexivity; lia. }
     split; [exact Hv|]. rewrite Hv. split; [exact Hpure | apply mean_contract; assumption].
+  Qed.
+
+  (* no count threshold: a pair seen in at least one sample always gets a (non-empty) winning bucket, provided a
+     candidate is within accept_radius of itself *)
+  Lemma vote_nonempty (refs : list P) (rest : list (list P)) :
+    (forall p, near p p = true) -> refs <> [] -> vote near (refs :: rest) <> [].
+  Proof.
+    intros Hrefl Hne. destruct refs as [|c0 refs']; [congruence|].
+    unfold vote. set (all := concat ((c0 :: refs') :: rest)). cbn [map].
+    set (b0 := bucket_of near (c0 :: refs') all 0%nat). set (b1 := bucket_of near (c0 :: refs') all 1%nat).
+    set (b2 := bucket_of near (c0 :: refs') all 2%nat). set (b3 := bucket_of near (c0 :: refs') all 3%nat).
+    assert (H0 : (0 < length b0)%nat).
+    { assert (Hin : In c0 b0).
+      { unfold b0, bucket_of. apply filter_In. split; [unfold all; cbn [concat app]; left; reflexivity|].
+        cbn [first_near]. rewrite Hrefl. reflexivity. }
+      destruct b0; [destruct Hin | cbn [length]; lia]. }
+    destruct (best_index_is_max [length b0; length b1; length b2; length b3] 0 0 0)
+      as [[_ Hall]|(k & m & Hr & Hk & Hm & _)].
+    - assert (length b0 <= 0)%nat by (apply Hall; left; reflexivity). lia.
+    - cbv zeta in Hr. rewrite Hr. cbn [Nat.add].
+      destruct k as [|[|[|[|k']]]]; cbn [nth_error] in Hk; try (injection Hk as <-; cbn [nth]; intros E; rewrite E in Hm; cbn [length] in Hm; lia).
+      destruct k'; discriminate.
   Qed.
 End VoteCorrect.
 
@@ -231,8 +285,8 @@ End A2PCorrect.
 (* ------------------------------------------------------------------ configurations on which the premise fails *)
 Definition near80 (a b : Z) : bool := dist_cm a b <? 80.       (* centimetres on a line, accept_radius = 0.8 m *)
 
-(* the counting premise of vote_correct, negated: some bucket holding a non-true candidate is at least as large as
-   the bucket h of the true candidates *)
+(* the counting premise of vote_correct, negated: some bucket holding a non-true candidate is bucket h itself, or comes
+   before h and is at least as large, or comes after h and is larger *)
 Definition premise_fails (pls : list (list Z)) (truth : Z) (h : nat) : Prop :=
   match pls with
   | [] => False
@@ -240,7 +294,8 @@ Definition premise_fails (pls : list (list Z)) (truth : Z) (h : nat) : Prop :=
       let all := concat pls in
       (forall c, In c all -> c = truth -> first_near near80 c refs O = Some h) /\
       exists i c, (i < 4)%nat /\ In c (bucket_of near80 refs all i) /\ c <> truth /\
-                  (length (bucket_of near80 refs all h) <= length (bucket_of near80 refs all i))%nat
+                  (i = h \/ ((i < h)%nat /\ (length (bucket_of near80 refs all h) <= length (bucket_of near80 refs all i))%nat)
+                         \/ ((h < i)%nat /\ (length (bucket_of near80 refs all h) < length (bucket_of near80 refs all i))%nat))
   end.
 
 (* F09b: a mirror candidate within accept_radius of the reference of the true bucket pollutes it *)
@@ -249,7 +304,7 @@ Lemma f09b_config : premise_fails cfg_f09b 0 0 /\ vote near80 cfg_f09b = [0; 30;
 Proof.
   split; [|reflexivity]. split.
   - intros c _ ->. reflexivity.
-  - exists 0%nat, 30. split; [lia|]. split; [vm_compute; tauto|]. split; [lia | vm_compute; lia].
+  - exists 0%nat, 30. split; [lia|]. split; [vm_compute; tauto|]. split; [lia | left; reflexivity].
 Qed.
 
 (* F09e: symmetric room: the families (true A, mirror B) and (mirror A, true B) coincide within accept_radius, share
@@ -260,7 +315,7 @@ Lemma f09e_config : premise_fails cfg_f09e 0 0 /\ vote near80 cfg_f09e = [200; 2
 Proof.
   split; [|split; reflexivity]. split.
   - intros c _ ->. reflexivity.
-  - exists 1%nat, 200. split; [lia|]. split; [vm_compute; tauto|]. split; [lia | vm_compute; lia].
+  - exists 1%nat, 200. split; [lia|]. split; [vm_compute; tauto|]. split; [lia | right; right; vm_compute; lia].
 Qed.
 
 (* two stations 0.2 m apart: every candidate of every sample is within accept_radius of the first reference *)
@@ -270,5 +325,29 @@ Lemma coincident_config : premise_fails cfg_coincident 20 0 /\
 Proof.
   split; [|reflexivity]. split.
   - intros c _ ->. reflexivity.
-  - exists 0%nat, 12. split; [lia|]. split; [vm_compute; tauto|]. split; [lia | vm_compute; lia].
+  - exists 0%nat, 12. split; [lia|]. split; [vm_compute; tauto|]. split; [lia | left; reflexivity].
 Qed.
+
+(* ------------------------------------------------------------------ no count threshold in /repo *)
+(* 21 error-free samples (centimetres on a line): the first one is the only one that sees stations 1 and 2 together,
+   the other twenty see 2 and 3.  The code of /repo keeps all of them; with a threshold of ceil(0.05 * 21) = 2 samples
+   per pair the first sample - the one that defines the reference frame - is dropped. *)
+Definition cfg_sparse : list (@dsample Z) :=
+  [(1, [0; 300]); (2, [200; 900])] :: repeat [(2, [200; 900]); (3, [500; 1500])] 20.
+
+Definition is_some {X} (o : option X) : bool := match o with Some _ => true | None => false end.
+
+Lemma pair_threshold_refuted :
+  length cfg_sparse = 21%nat /\
+  forallb is_some (decide dist_cm Z.ltb 80 50 10000000 mean_cm (fun a b => b - a) 0 cfg_sparse) = true /\
+  nth 0 (decide dist_cm Z.ltb 80 50 10000000 mean_cm (fun a b => b - a) 0 cfg_sparse) None
+    = Some [(1, 0); (2, 200)] /\
+  nth 0 (decide_thr dist_cm Z.ltb 80 50 10000000 mean_cm (fun a b => b - a) 0 2 cfg_sparse) None = None /\
+  forallb is_some (tl (decide_thr dist_cm Z.ltb 80 50 10000000 mean_cm (fun a b => b - a) 0 2 cfg_sparse)) = true.
+Proof. vm_compute. repeat split. Qed.
+
+(* with the threshold at 1 (what ceil(0.05 n) is for n <= 20) the variant is the code of /repo on this input *)
+Lemma pair_threshold_one_same :
+  decide_thr dist_cm Z.ltb 80 50 10000000 mean_cm (fun a b => b - a) 0 1 cfg_sparse
+  = decide dist_cm Z.ltb 80 50 10000000 mean_cm (fun a b => b - a) 0 cfg_sparse.
+Proof. vm_compute. reflexivity. Qed.
